@@ -188,4 +188,5 @@ func init() {
 	serialization.GenericRegister[dagChannel]("_eino_dag_channel")
 	serialization.GenericRegister[pregelChannel]("_eino_pregel_channel")
 	serialization.GenericRegister[dependencyState]("_eino_dependency_state")
+	serialization.GenericRegister[nilStreamValue]("_eino_nil_stream_value")
 }
